@@ -49,6 +49,32 @@ class RandomWalk(Strategy):
         return self.line_prob > 0 and self.rng.random() < self.line_prob
 
 
+class LazyActor(RandomWalk):
+    """Random walk in which one actor (the victim) runs at once until the harness arms the strategy (e.g. at its first transport close()),
+    and from then on is chosen only with probability p per decision while anybody else can run: it is frozen for long stretches at whatever
+    yield point it had reached, which random walks and PCT hardly ever produce."""
+
+    def __init__(self, seed, victim, p=0.02, stay=0.6, line_prob=0.0):
+        RandomWalk.__init__(self, seed, stay=stay, line_prob=line_prob)
+        self.victim = victim
+        self.p = p
+        self.armed = False
+
+    def choose(self, kind, options, current):
+        if kind != "sched" or self.victim not in options or len(options) == 1:
+            return RandomWalk.choose(self, kind, options, current)
+        if not self.armed:
+            return options.index(self.victim)
+        if self.rng.random() < self.p:
+            return options.index(self.victim)
+        rest = [o for o in options if o != self.victim]
+        return options.index(rest[RandomWalk.choose(self, kind, rest, current if current in rest else None)])
+
+    def want_line_yield(self):
+        # (the victim has to be stoppable between any two lines once it is armed)
+        return self.line_prob > 0 and self.rng.random() < self.line_prob
+
+
 class PCT(Strategy):
     """Probabilistic concurrency testing: random priorities, d priority-change points at random steps."""
 
